@@ -803,6 +803,12 @@ def inline_body(db, f, originals, stats=None, mode="cons"):
             if g.raw.get("is_async"):
                 site = async_site(blocks, bi, g, originals)
                 if site is None:
+                    # not awaited on the spot (boxed, wrapped in catch_unwind, spawned, ..): the call only *creates* the
+                    # helper's future -- splice that creation in (`async fn f(a)` is `fn f(a) -> impl Future { async move {..} }`),
+                    # which makes the helper's body an async block of the caller
+                    if getattr(db, "ctor_inlined", None) is not None and len(g.raw["blocks"]) <= 16 and not any(b_["term"]["k"] == "call" for b_ in g.raw["blocks"]):
+                        db.ctor_inlined.append((f.id, g.id))
+                        todo.append((bi, g, None))
                     continue
                 todo.append((bi, g, site))
                 continue
